@@ -6,20 +6,5 @@
 -/
 import PygModel.TableSpec
 
-namespace Pyg
-namespace Recs
-
-/-- the PLAIN reading of `d[mask]` on a list of records, with nothing but `zip`, `filter`, `map`:
-  * one flag per record: keep the flagged records, in order (`Recs.mask`);
-  * a single flag (and not exactly one record): all records if it is `True`, none otherwise;
-  * any other length: `ValueError`.
-In particular a ONE-record table under a mask of another length is a `ValueError` here; the code (and the
-model, `Pyg.Props.C01.mask_one_row_repeats`) repeats the record instead. -/
-def getMaskPlain (r : Recs) (m : List Bool) : Except Err Recs :=
-  if m.length = r.rows.length then .ok ⟨r.cols, ((r.rows.zip m).filter (·.2)).map (·.1)⟩
-  else match m with
-    | [flag] => .ok ⟨r.cols, if flag then r.rows else []⟩
-    | _ => .error .value
-
-end Recs
-end Pyg
+/-! `Recs.getMaskPlain` now lives in PygModel/TableSpec.lean: since the repair of `dictable.__getitem__` (a mask
+must have one flag per row or be a single flag) the reference machine `specStep` itself uses the plain reading. -/
